@@ -178,4 +178,100 @@ fn merge_stub<I: Interner>(
     guidance
 }
 
+// ---------------------------------------------------------------------------
+// Answers that carry a NON-EMPTY substitution ([?0 := str]).  Only the stream [answer, no-more] is run: it decides
+// that Unique hands the stream's substitution back unchanged (clause (b) with a non-trivial answer).  The streams that
+// matter for C01's "definite guidance never excludes a solution" - [answer, FLOUNDERED], where the pinned code answered
+// Ambig(Definite(first answer)) although the table had just discarded its strands and answers (DESIGN section 6h) - were
+// written as harnesses of this same contract (`sub_contract`) and do NOT finish: behind the peek make_solution calls
+// CanonicalExt::map, i.e. instantiate + canonicalize through the generic folder, and CBMC gives no verdict in 900 s even
+// though stream and substitution are concrete.  They are not registered; the clause is stated in `sub_contract` for the
+// day it becomes checkable, and is NOT claimed.
+fn one_subst() -> Canonical<ConstrainedSubst<VerifIr>> {
+    let ty = TyKind::Str.intern(VerifIr);
+    Canonical {
+        value: ConstrainedSubst {
+            subst: Substitution::from1(VerifIr, ty),
+            constraints: Constraints::empty(VerifIr),
+        },
+        binders: CanonicalVarKinds::empty(VerifIr),
+    }
+}
+
+struct SubStream {
+    first_ambiguous: bool,
+    second: Item,
+    pos: usize,
+}
+
+impl SubStream {
+    fn item(&self, i: usize) -> AnswerResult<VerifIr> {
+        match i {
+            0 => AnswerResult::Answer(CompleteAnswer { subst: one_subst(), ambiguous: self.first_ambiguous }),
+            1 => match self.second {
+                Item::Answer { ambiguous } => AnswerResult::Answer(CompleteAnswer { subst: one_subst(), ambiguous }),
+                Item::Floundered => AnswerResult::Floundered,
+                Item::NoMore => AnswerResult::NoMoreSolutions,
+                Item::Quantum => AnswerResult::QuantumExceeded,
+            },
+            _ => AnswerResult::NoMoreSolutions,
+        }
+    }
+}
+
+impl AnswerStream<VerifIr> for &mut SubStream {
+    fn peek_answer(&mut self, _should_continue: impl Fn() -> bool) -> AnswerResult<VerifIr> {
+        self.item(self.pos)
+    }
+    fn next_answer(&mut self, _should_continue: impl Fn() -> bool) -> AnswerResult<VerifIr> {
+        let r = self.item(self.pos);
+        self.pos += 1;
+        r
+    }
+    fn any_future_answer(&self, _test: impl Fn(&Substitution<VerifIr>) -> bool) -> bool {
+        // what the real forest answers here: a floundered table has no cached answers and no strands left
+        // (Table::mark_floundered), an exhausted one neither - "no future answer"
+        false
+    }
+}
+
+fn sub_contract(first_ambiguous: bool, second: Item) {
+    let db = MockDb;
+    let ops = SlgContextOps::new(&db, 10, None);
+    let goal = core::mem::ManuallyDrop::new(root_goal());
+    let mut stream = SubStream { first_ambiguous, second, pos: 0 };
+    let result_md = core::mem::ManuallyDrop::new(ops.make_solution(&goal, &mut stream, || true));
+    let result: &Option<Solution<VerifIr>> = &result_md;
+    let unique = matches!(result, Some(Solution::Unique(_)));
+    let definite = matches!(result, Some(Solution::Ambig(Guidance::Definite(_))));
+    match second {
+        Item::Floundered => {
+            assert!(!unique && !definite, "floundered behind the first answer: no claim that every solution is an instance of it");
+            assert!(matches!(result, Some(Solution::Ambig(_))));
+        }
+        Item::NoMore => {
+            // not vacuous: the non-empty substitution does come back
+            assert!(unique == !first_ambiguous, "Unique <=> exactly one unconditional answer");
+            if let Some(Solution::Unique(s)) = result {
+                assert!(s.value.subst.len(VerifIr) == 1, "Unique carries the stream's answer unchanged");
+            }
+            if first_ambiguous {
+                assert!(definite, "a single ambiguous answer and nothing else: its substitution is definite guidance");
+            }
+        }
+        Item::Quantum => {
+            assert!(matches!(result, Some(Solution::Ambig(Guidance::Suggested(_)))), "interrupted behind the first answer: suggestion only");
+        }
+        Item::Answer { .. } => {}
+    }
+}
+
+#[kani::proof]
+#[kani::unwind(6)]
+#[kani::stub(SlgContextOps::identity_constrained_subst, identity_stub)]
+#[kani::stub(merge_into_guidance, merge_stub)]
+fn k12_stream_sub_ans_end() {
+    sub_contract(false, Item::NoMore);
+}
+
 include!("/verif/kani/chalk_engine/k12_cases.rs");
